@@ -78,7 +78,7 @@ class Reply:
                 cipher = usm.priv_encrypt(sec["priv_alg"], sec["priv_kul"], sec["boots"], sec["time"], sec["salt"], plain)
                 if sec.get("cipher_trim"):
                     cipher = cipher[: max(0, len(cipher) - sec["cipher_trim"])]
-                tree.children[pos] = ber.prim(0x04, cipher, name="encrypted")
+                tree.children[pos] = ber.prim(0x04, cipher, sec.get("enc_width", 0), name="encrypted")
         if sec.get("auth_alg") and sec.get("sign", True):
             a = snmp.find(tree, "usm-auth")
             if a is None or a.children is not None:
